@@ -10,9 +10,12 @@ pkg=./$(dirname $demo)
 go build ./... || { echo "does not build"; exit 2; }
 go test -vet=off -count=1 ./pkg/iprange/ ./pkg/kongini/ ./pkg/fs/ -run 'TestSFO|TestParseIPRange|TestINIBasic' >/tmp/seed-suite.log 2>&1 && suite=pass || suite=FAIL
 go test -vet=off -count=1 $pkg -run 'Mut' >/tmp/seed-with.log 2>&1 && with=pass || with=fail
-git stash push -q -- $(git diff --name-only | grep -v _test.go)
+# (no git stash: the stash is shared by all worktrees of a repository, sub-agents use it concurrently)
+srcs=$(git diff --name-only | grep -v _test.go)
+git diff -- $srcs > /tmp/seedkeep-$id.diff
+git checkout -q -- $srcs
 go test -vet=off -count=1 $pkg -run 'Mut' >/tmp/seed-without.log 2>&1 && without=pass || without=fail
-git stash pop -q
+git apply /tmp/seedkeep-$id.diff && rm -f /tmp/seedkeep-$id.diff
 echo "suite=$suite demo-with-mutant=$with demo-without=$without"
 [ "$suite" = pass ] && [ "$with" = fail ] && [ "$without" = pass ] || { echo "NOT CONFIRMED"; exit 1; }
 d=/verif/seeded/$id; mkdir -p $d
